@@ -16,16 +16,16 @@ BR1 = dict(fthr=1, fcap=1, frate=0, fexec=0, period=0, sthr=0, scap=0, delay=100
 def cb(id, cfg=BR1, h=()): return dict(k="cb", id=id, cfg=cfg, h=list(h))
 
 def fn(d=0, r="R1", e=None, coop=False): return dict(d=d, r=r, e=leaf(e) if e else NIL, coop=coop)
-def start(x, at=0, asyn=False): return dict(at=at, what="Start", x=x, **{"async": asyn}, id="")
-def env(what, at, x=0, id=""): return dict(at=at, what=what, x=x, **{"async": False}, id=id)
+def start(x, at=0, asyn=False): return dict(at=at, what="Start", x=x, **{"async": asyn}, id="", gap=0)
+def env(what, at, x=0, id="", gap=0): return dict(at=at, what=what, x=x, **{"async": False}, id=id, gap=gap)
 
 
-def scenario(stack, fns, envs, tld=0, async_fix=None, unit_ns=1_000_000, default=None):
+def scenario(stack, fns, envs, tld=0, async_fix=None, unit_ns=1_000_000, default=None, readers=False):
     nx = max([e["x"] for e in envs if e["what"] == "Start"] + [0])
     bhmax = {d["id"]: d["max"] for d in stack if d["k"] == "bh"}
     envs = sorted(envs, key=lambda e: e["at"])
     return dict(stack=stack, fns=fns, fnDefault=default or fn(0, "R2"), env=envs, nx=nx, tld=tld,
-                asyncFix=ASYNC_FIX if async_fix is None else async_fix, bhmax=bhmax, unit_ns=unit_ns)
+                asyncFix=ASYNC_FIX if async_fix is None else async_fix, bhmax=bhmax, unit_ns=unit_ns, readers=readers)
 
 
 def async_fix_in_code():
@@ -55,15 +55,26 @@ def run_and_validate(ctx, binary, name, scenarios, timeout=1800):
     cfgt = "SPECIFICATION TraceSpec\nCONSTANTS\n TraceFile = \"%s\"\nCONSTRAINT %s\nCHECK_DEADLOCK FALSE\n"
     sd = vlib.stage_specs(ctx, "tv_" + name, tla, cfgt % (outp, "Progress"))
     acc = [False]
+    propviol = {}
 
     def cba(line):
         if "TRACE-ACCEPTED" in line:
             acc[0] = True
             return True
+        m = re.search(r'<<"PROPVIOL", "(C\d+)", (\d+)>>', line)
+        if m:
+            propviol[(m.group(1), int(m.group(2)))] = 1
+            return True
         return False
     t = vlib.run_tlc(ctx, sd, workers=1, dfs=True, timeout=timeout, allow_fail=True, heap="6g", line_cb=cba)
     tail = "\n".join(t["tail"][-80:])
     res["states"] = t["distinct"]
+    res["propviol"] = []
+    if propviol:
+        lines = [json.loads(x) for x in open(outp)]
+        for (prop, ln) in sorted(propviol):
+            startl = max(i for i in range(ln) if lines[i]["ev"] == "Config")
+            res["propviol"].append(dict(prop=prop, line=ln, config=lines[startl]["cfg"], trace=lines[startl:ln]))
     if acc[0] and t["rc"] == 0:
         ctx.traces += summ["n"] - len(problems)
         return True, res
